@@ -67,6 +67,7 @@ func main() {
 	flag.Var(&schedPkgs, "sched", "package (relative to the repository) to put under the scheduler")
 	flag.Var(&adds, "add", "dest=src: add file src to the repository at relative path dest")
 	flag.Var(&accessPkgs, "access", "package whose accesses to package-level variables and codec struct fields become scheduling points")
+	flag.BoolVar(&fieldPoints, "fields", false, "with -sched: also insert scheduling points before accesses to struct fields that are assigned outside constructors")
 	flag.Parse()
 	if *out == "" {
 		die("-out required")
@@ -120,6 +121,17 @@ func main() {
 					isSched = true
 				}
 			}
+			var mf map[*types.Var]bool
+			if isSched && fieldPoints {
+				mf = mutableFields(p)
+				var names []string
+				for v := range mf {
+					names = append(names, v.Name())
+				}
+				sort.Strings(names)
+				stats["mutable_fields"] = len(names)
+				fmt.Fprintf(os.Stderr, "instr: mutable fields of %s: %s\n", rel, strings.Join(names, " "))
+			}
 			for i, f := range p.Syntax {
 				name := p.CompiledGoFiles[i]
 				if strings.HasSuffix(name, "_test.go") {
@@ -127,6 +139,9 @@ func main() {
 				}
 				var src []byte
 				if isSched {
+					if mf != nil && !strings.HasSuffix(name, "_test.go") {
+						forceSched = insertFieldPoints(p, f, mf)
+					}
 					src = rewriteSched(p, f)
 				} else {
 					src = rewriteAccess(p, f)
@@ -171,6 +186,8 @@ func render(fset *token.FileSet, f *ast.File, tail string) []byte {
 	return append([]byte("//go:build go1.21\n\n"), buf.Bytes()...)
 }
 
+var forceSched bool
+
 func rewriteSched(p *packages.Package, f *ast.File) []byte {
 	fset := p.Fset
 	info := p.TypesInfo
@@ -187,7 +204,8 @@ func rewriteSched(p *packages.Package, f *ast.File) []byte {
 	}
 	skip := map[ast.Node]bool{}
 	n := 0
-	used := false
+	used := forceSched
+	forceSched = false
 	tmp := 0
 	fresh := func(p string) *ast.Ident { tmp++; return ast.NewIdent(fmt.Sprintf("_v%s%d", p, tmp)) }
 	astutil.Apply(f, func(c *astutil.Cursor) bool {
